@@ -149,7 +149,8 @@ impl Block {
                                 index + offset,
                                 TriviaKind::Whitespace.with_content("\n".repeat(gap)),
                             );
-                            offset += gap;
+                            // one trivia was inserted, whatever the number of lines it holds
+                            offset += 1;
                         }
                     }
 
